@@ -122,6 +122,8 @@ UNITS['c08'] = {
 UNITS['c17'] = {
     'template': 'contracts/c17.vrs',
     'mutants': [
+        ('every_qualified_variable_renamed', '(Some(reference), Some(definition)) if reference == definition =>', '(Some(reference), Some(definition)) =>', ['C18.rename_qualifier']),
+        ('prepare_rename_offers_the_whole_declaration', 'Some(decl.identifier().node())', 'Some(decl.node())', ['C18.prepare_rename']),
         ('rename_skips_the_binder_name', 'changes.insert(decl_location.uri, vec_one(decl_edit));', '', ['C18.rename_variable']),
         ('rename_use_replaces_earlier_edits', 'changes.push_edit(r.uri, edit);', 'changes.insert(r.uri, vec_one(edit));', ['C18.rename_variable']),
         ('refs_report_every_variable', 'if definition == core_ref_of(var.node()).definition().unwrap() {', 'if true {', ['C17.find_references']),
@@ -468,7 +470,7 @@ PROPS = {
             {'name': 'P17.find_folders', 'kind': 'pinned_text', 'file': 'oal-client/src/lsp/handlers.rs', 'path': [('fn', 'find_folders')],
              'why': 'find_folders is under an ASSUMED contract: the folders whose module set contains the locator'},
         ],
-        'technique': 'Verus contracts on the real LSP handlers rename, rename_variable, find_qualifier (unit c17, over the definition slots written by the resolver): the request is always answered, and the edits are the binder\'s name plus every use bound to it',
+        'technique': 'Verus contracts on the real LSP handlers rename, prepare_rename, rename_variable, rename_qualifier, find_qualifier (unit c17, over the definition slots written by the resolver): the request is always answered, and the edits are the binder\'s name plus every use bound to it',
         'level_text': 'Deductive proof (Verus/Z3), for all folders, trees, cursor positions and new names: the real rename_variable returns for every definition the cursor can designate — a declaration, a function parameter, a recursion variable, a built-in — '
                       '(no unwrap can fail: found failing on the pinned tree for parameters and recursion variables, which terminated the server; repaired by a fix commit, see known_findings.json), '
                       'and its edits are exactly: one on the binder\'s own name (the declaration\'s identifier, or the first child of a binding), then one on the identifier of every Variable node of the folder whose definition slot is that binder, in module and pre-order, nothing else; '
@@ -476,11 +478,11 @@ PROPS = {
                       'That the edited sources are still accepted and compile to the same document (alpha-equivalence of two whole programs), non-overlap of the edits, rename_qualifier and prepare_rename are not decided: level other.',
         'level_note': 'ASSUMED: as for C17 (syntax_at, find_folders pinned; tree accessors as an opaque tree with ghost structure; every node has a span; every Variable of a compiled folder has its slot set), plus: '
                       '`HashMap<Url, Vec<TextEdit>>` as a trusted shim (EditMap: per document the edits in order), the Entry-API match rewritten to its push_edit (R-local), `vec![x]` -> vec_one, `new_name.into()` -> str_to_string, '
-                      'rename_qualifier NOT under contract (assumed to return and to leave the texts alone), the first child of a Binding node is its identifier (oal-syntax parser.rs Binding::ident).',
+                      '`impl PartialEq for Identifier` is equality of the identifier texts (parser.rs), a node\'s span lies in the module whose tree holds it, the first child of a Binding node is its identifier (oal-syntax parser.rs Binding::ident).',
         'design_ref': 'DESIGN.md section 12.30',
         'explanation': 'Listed not applicable in the plan (alpha-equivalence of two programs). The clause "never crashes the server" and the shape of the edit set are single-call contracts on the handlers, within reach once C17 had the tree shim.',
-        'assumptions': ['definition slots are those written by resolve (unit c08)', 'syntax_at / find_folders contracts (pinned)', 'rename_qualifier returns'],
-        'not_decided': ['the edited sources are accepted and compile to the same document (two-program property)', 'edits do not overlap (distinct nodes have disjoint spans: parser invariant, out of reach)', 'rename_qualifier, prepare_rename', 'several folders containing the document: edits of the later folder are appended'],
+        'assumptions': ['definition slots are those written by resolve (unit c08)', 'syntax_at / find_folders contracts (pinned)', 'spans are local to the module of their tree'],
+        'not_decided': ['the edited sources are accepted and compile to the same document (two-program property)', 'edits do not overlap (distinct nodes have disjoint spans: parser invariant, out of reach)', 'several folders containing the document: edits of the later folder are appended'],
     },
     'C10': {
         'units': ['c10', 'c10j'],
